@@ -149,7 +149,26 @@ class AuditGen:
         return a
 
 
-def gen_samples(rng, dmax=4, nmax=4, kind=None):
+LABEL_OFFSETS = [10 ** 5, 10 ** 9, 2 ** 40, -10 ** 5, -10 ** 9, -2 ** 40, 123456789, 2 ** 31 - 5]
+
+
+def relabel(rng, vals, max_abs=None):
+    """index labels over the whole integer range: per mode (or the same for all modes, so that one label occurs in
+    several modes) an offset of 1e5 .. 2^40 of either sign and a stride 1 (neighbouring labels), 2, 1000 (sparse
+    subset of a huge mode); order preserving"""
+    offs = [o for o in LABEL_OFFSETS if max_abs is None or abs(o) + 10 ** 5 < max_abs]
+    if not offs:
+        return vals
+    shared = rng.random() < 0.5
+    o0, s0 = rng.choice(offs), rng.choice([1, 1, 1, 2, 1000])
+    out = []
+    for vs in vals:
+        o, st = (o0, s0) if shared else (rng.choice(offs + [0]), rng.choice([1, 1, 1, 2, 1000]))
+        out.append([o + st * v for v in vs])
+    return out
+
+
+def gen_samples(rng, dmax=4, nmax=4, kind=None, labels=True):
     """sample set: (I rows, y values, description).  Index values are arbitrary sorted integers per mode."""
     d = rng.randint(2, dmax)
     ns = [rng.randint(1, nmax) for _ in range(d)]
@@ -158,6 +177,8 @@ def gen_samples(rng, dmax=4, nmax=4, kind=None):
     vals = [sorted(rng.sample(range(-3, 10), n)) for n in ns]
     if rng.random() < 0.4:
         vals = [list(range(n)) for n in ns]
+    if labels and rng.random() < 0.4:
+        vals = relabel(rng, vals)
     kind = kind or rng.choice(['full', 'full_dup', 'sparse', 'sparse', 'additive_full'])
     grid = [list(t) for t in itertools.product(*vals)]
     if kind in ('full', 'additive_full'):
@@ -177,7 +198,7 @@ def gen_samples(rng, dmax=4, nmax=4, kind=None):
         y = [rng.randint(-9, 9) for _ in rows]
         if rng.random() < 0.1:
             y = [y[0]] * len(y)
-    return rows, y, dict(d=d, ns=ns, kind=kind, m=len(rows))
+    return rows, y, dict(d=d, ns=ns, kind=kind, m=len(rows), maxlabel=max(abs(v) for r_ in rows for v in r_))
 
 
 def ref_model(rows, y, order):
@@ -286,10 +307,16 @@ def form_ab(v, d, form):
 def gen_forms_anova(rng):
     """sample set with index values 0..12 (so that uint8 holds them) and a y whose form is drawn; returns the
     objects to pass and the exact values they denote"""
-    rows, y, desc = gen_samples(rng, nmax=3)
+    rows, y, desc = gen_samples(rng, nmax=3, labels=False)
     lo = min(min(r) for r in rows)
     rows = [[v - lo for v in r] for r in rows]
     yform, iform = rng.choice(Y_FORMS), rng.choice(I_FORMS)
+    if iform != 'u8' and rng.random() < 0.5:      # large labels as far as the index dtype holds them
+        d_ = len(rows[0])
+        vals = [sorted(set(r_[k] for r_ in rows)) for k in range(d_)]
+        new_vals = relabel(rng, vals, max_abs=2 ** 31 if iform == 'i32' else None)
+        maps = [dict(zip(vals[k], new_vals[k])) for k in range(d_)]
+        rows = [[maps[k][r_[k]] for k in range(d_)] for r_ in rows]
     if yform in ('list', 'f64', 'f32', 'f16') and desc['kind'] != 'additive_full':
         y = [rng.choice([v, v + 0.1, v / 8., v * 0.3, v + 1. / 3.]) for v in y]   # not representable in the narrow dtypes
     yobj, yex = form_y(y, yform)
@@ -710,7 +737,8 @@ def gen_func(rng, family='generic'):
         y[rng.randrange(m)] += rng.choice([2. ** -52, 2. ** -51, -2. ** -52])
     else:
         y = [rng.randint(-16, 16) / 4. for _ in range(m)]
-    lamb = rng.choice([2. ** -10, 2. ** -4, 1., 1e-7])
+    # the regularisation value at its boundaries: exactly zero (int and float), tiny, default, large
+    lamb = rng.choice([0, 0., 0., 1e-300, 1e-16, 1e-7, 1e-7, 2. ** -10, 2. ** -4, 1., 1e3, 1e10])
     return X, y, n, a, b, lamb, d
 
 
@@ -801,7 +829,7 @@ def corr_func(R, ctx, tn):
         X = [[float(v) for v in row] for row in np.array(Xa0, dtype=float)]
         ya0, y = form_y(y, yform)
         aa, ba, na = form_ab(a, d, abform), form_ab(b, d, abform), form_s(n, nform)
-        lamb_a = np.float64(lamb) if nform != 'py' else lamb
+        lamb_a = np.float64(lamb) if (nform != 'py' and not isinstance(lamb, int)) else lamb
         Xa, ya = Xa0, ya0
         Xsnap, ysnap = np.array(Xa0, copy=True), np.array(ya0, copy=True)
         hist = []
@@ -866,7 +894,7 @@ def corr_func(R, ctx, tn):
                     xs = [Fraction(float(v)) for v in x]
                     xmax = max(xmax, float(np.max(np.abs(x))))
                     res = max(abs(float(sum(Nm[p * n + q] * xs[q] for q in range(n)) - rm[p])) for p in range(n))
-                    if res > 1e-7 * max(scr, scN * float(np.max(np.abs(x)))) / min(1.0, lamb * 1e4):
+                    if res > 1e-9 * (scr + n * scN * float(np.max(np.abs(x)))):   # backward stability, any lamb >= 0
                         why = why or f'recorded lstsq solution {i} does not solve the normal equations: {res:.2e}'
                 # contract of tensors.delta on every recorded call: 1 + d*(n-1) calls
                 if len(dcalls) != 2 * (1 + d * (n - 1)):
@@ -1253,6 +1281,22 @@ def oracle_func(tn, X, y, n, a, b, lamb, pts, rounding=True, forms=None):
             return dict(what=f'{name}: coefficient tensor is not c0 at 0, cf_i[p] at (p+1)e_i, zero elsewhere',
                         input=inp, at=[int(v) for v in pos], got=float(full[pos]), expected=float(exp_t[pos]),
                         err=err, allowed=tol * csc)
+    # the rounding accuracy e at its boundaries (0, tiny, default is covered above, large): the result stays within
+    # e ||A||_F of the unrounded tensor (C13_anova_func_error) and keeps the mode sizes
+    if rounding:
+        nrm = float(np.linalg.norm(exp_t))
+        for ev in (0., 1e-14, 1e-3, 0.3):
+            try:
+                We = tn.anova_func(Xo, yo, no, ao, bo, lamb, ev)
+                fe = tn.full(We)
+            except Exception as e:  # noqa
+                return dict(what=f'anova_func(e={ev!r}) raised on valid input: ' + repr(e)[:200], input=inp)
+            if [G.shape[1] for G in We] != [n] * d:
+                return dict(what=f'anova_func(e={ev!r}): mode sizes are not n', input=inp, got=[G.shape[1] for G in We])
+            err = float(np.linalg.norm(fe - exp_t)) if np.all(np.isfinite(fe)) else float('inf')
+            if not err <= (ev + 1e-9) * nrm * (1. + 1e-6):
+                return dict(what=f'anova_func(e={ev!r}): rounded coefficient tensor is further than e*||A|| from the '
+                                 'unrounded one', input=inp, got=err, expected=(ev + 1e-9) * nrm)
     # independent: fitted constant + sum of fitted 1-D Chebyshev expansions, T_k(t) = cos(k arccos t)
     t = np.clip((P - (b + a) / 2.) * (2. / (b - a)), -1., 1.)
     exp = np.full(len(pts), float(cfs[0][0]))
@@ -1264,7 +1308,9 @@ def oracle_func(tn, X, y, n, a, b, lamb, pts, rounding=True, forms=None):
         if not err <= tol * csc * (1 + d * n):
             return dict(what=f'anova_func ({name}): interpolant differs from fitted constant + 1-D expansions',
                         input=inp, got=err, expected=tol * csc * (1 + d * n))
-    # the fit itself: ridge normal equations, recomputed independently (on data scaled to O(1))
+    # the fit itself: the ridge normal equations (B^T B + lamb I) c = B^T (y - mean), any lamb >= 0 including exactly 0
+    # (possibly singular: every solution qualifies, so the RESIDUAL is checked, on data scaled to O(1)).  The constant
+    # term c_i[0] of mode i is not stored separately: it is recovered from row 0 and the sum is compared with coeffs[0].
     Xs = np.clip((np.array(X) - (b + a) / 2.) * (2. / (b - a)), -1., 1.)
     yy = np.array(y, dtype=float)
     ysc = float(np.max(np.abs(yy)))
@@ -1274,15 +1320,23 @@ def oracle_func(tn, X, y, n, a, b, lamb, pts, rounding=True, forms=None):
     y0 = yy.mean()
     yc = (yy - y0) / ysc
     c0 = y0 / ysc
-    rtol = 1e-6 / min(1., lamb * 1e4)
+    lam = float(lamb)
     for i in range(d):
         B = cheb_ref(np.arange(n)[None, :], Xs[:, i][:, None])
-        cf = np.linalg.solve(B.T @ B + lamb * np.eye(n), B.T @ yc)
-        c0 += cf[0]
-        if len(cfs[1 + i]) != n - 1 or float(np.max(np.abs(cf[1:] - cfs[1 + i] / ysc), initial=0.)) > rtol:
-            return dict(what=f'ANOVA_func.coeffs[{1 + i}] does not solve the ridge normal equations', input=inp,
-                        got=cfs[1 + i].tolist(), expected=(cf[1:] * ysc).tolist())
-    if abs(c0 - cfs[0][0] / ysc) > rtol:
+        N = B.T @ B + lam * np.eye(n)
+        rhs = B.T @ yc
+        if len(cfs[1 + i]) != n - 1:
+            return dict(what=f'ANOVA_func.coeffs[{1 + i}] has length {len(cfs[1 + i])}, not n-1', input=inp)
+        tail = cfs[1 + i] / ysc
+        ci0 = (rhs[0] - float(N[0, 1:] @ tail)) / N[0, 0]
+        cf = np.concatenate([[ci0], tail])
+        res = float(np.max(np.abs(N @ cf - rhs)))
+        allowed = 1e-7 * (float(np.max(np.abs(rhs))) + n * float(np.max(np.abs(N))) * float(np.max(np.abs(cf))) + 1e-300)
+        if not res <= allowed:
+            return dict(what=f'ANOVA_func.coeffs[{1 + i}] does not solve the ridge normal equations (lamb={lamb!r})',
+                        input=inp, got=res, expected=allowed, coeffs=cfs[1 + i].tolist())
+        c0 += ci0
+    if not abs(c0 - cfs[0][0] / ysc) <= 1e-7 * (1. + abs(c0)) * d:
         return dict(what='ANOVA_func.coeffs[0] is not mean + sum of the fitted constant terms', input=inp,
                     got=float(cfs[0][0]), expected=float(c0 * ysc))
     return None
@@ -1389,6 +1443,12 @@ def search(R, ctx, deep, hints):
     for yv in (0.1, -0.7, 1. / 3.):
         cand.append(dict(kind='func', X=Xd, y=[yv] * 7, n=3, a=-1., b=1., lamb=1e-7,
                          pts=[[0.3, -0.6], [-0.9, 0.1], [0.77, 0.55]]))
+    # the regularisation value at its boundaries on one fixed data set (d = 2 and d = 3)
+    Xd3 = [r_ + [(-1) ** k_ * (k_ % 4) / 4.] for k_, r_ in enumerate(Xd)]
+    for lv in (0, 0., 1e-300, 1e-16, 1e3, 1e10):
+        for XX in (Xd, Xd3):
+            cand.append(dict(kind='func', X=XX, y=[1.5, -2., 0.25, 3., -0.75, 1., 2.5], n=3, a=-1., b=1., lamb=lv,
+                             pts=[[0.3, -0.6, 0.2][:len(XX[0])], [-0.9, 0.1, -0.4][:len(XX[0])]]))
     cand.append(dict(kind='func', X=Xd, y=[3e-18, -1e-18, 4e-18, 1e-18, -5e-18, 9e-18, 2e-18], n=3, a=-1., b=1.,
                      lamb=1e-7, pts=[[0.3, -0.6], [-0.9, 0.1]]))
     for k_ in range(33 if not deep else 165):
